@@ -147,6 +147,7 @@ class Rec:
         key = json.dumps([monitor, cls, fj], sort_keys=True)
         n = self.vkeys.get(key, 0)
         self.vkeys[key] = n + 1
+        self._flush_partial()
         if n < 2 and len(self.violations) < MAX_VIOLATIONS_KEPT:
             self.violations.append({
                 "key": key, "monitor": monitor, "class": cls, "what": what,
@@ -159,6 +160,20 @@ class Rec:
 
     def waive(self, cls, reason):
         self.waived[cls] = reason
+
+    def _flush_partial(self):
+        """Keep the violations found so far on disk, so that a shard that later hangs and is killed by the watchdog does not
+        take them with it (written after the first violations and then every 50th)."""
+        path = getattr(self, "partial_path", None)
+        if path and (self.violation_count <= 3 or self.violation_count % 50 == 0):
+            try:
+                rep = self.report()
+                rep["partial"] = True
+                with open(path + ".tmp", "w") as f:
+                    json.dump(rep, f)
+                os.replace(path + ".tmp", path)
+            except Exception:
+                pass
 
     def exhaustive_space(self, space, size):
         self.exhaustive.append({"space": space, "size": size})
